@@ -225,8 +225,13 @@ def gen_message(rng, lo, hi, target=None, tkind=None, force_valid=False):
         n = rng.randrange(0, 7)
         return frame(start, target, code, [rng.randrange(256) for _ in range(n)]), tkind + ':unknown'
     code = rng.choice(CODES)
-    return (frame(start, target, code, valid_params(rng, code), bad_checksum=rng.randrange(1, 256)),
-            tkind + ':badchecksum')
+    good = frame(start, target, code, valid_params(rng, code))
+    # wrong checksum byte: special values, off by one, uncomplemented sum, random
+    c = good[-1]
+    bad = rng.choice([0, 0, 255, (c + 1) % 256, (c - 1) % 256, c ^ 0xFF, rng.randrange(256)])
+    if bad == c:
+        bad = (c + 7) % 256
+    return good[:-1] + [bad], tkind + ':badchecksum'
 
 
 def gen_garbage(rng):
@@ -363,3 +368,66 @@ def run_history(lo, hi, pokes, bs):
 
 
 LINE_IMPORTS = 'From DS Require Import Base.Bits Model.Utils Model.AslLine Corr.AslCorr.'
+
+
+# ---------------------------------------------------------------------------------------------
+# generated tables (tie of the hand-written tables to the source, DESIGN.md section 5.1)
+
+def gen_tables(ctx):
+    """coq/Gen/AslTables.v: System.functions (code, handler name), the constants of the line, and
+    the command byte every public encoder of command_library.py passes to _compose (by AST)."""
+    import ast
+    import os
+    from vlib.core import COQ, REPO, GenError, write_if_changed
+    from simulators.active_surface import System
+    from simulators.active_surface.usd import USD
+    funcs = list(System.functions.items())
+    for code, hname in funcs:
+        if not (isinstance(code, int) and isinstance(hname, str) and hname.startswith('_')):
+            raise GenError('System.functions entry %r: %r' % (code, hname))
+        if not callable(getattr(System, hname, None)):
+            raise GenError('handler %s missing on System' % hname)
+        if not callable(getattr(USD, hname[1:], None)):
+            raise GenError('USD method %s missing' % hname[1:])
+    consts = dict(ack=ord(System.byte_ack), nak=ord(System.byte_nak), switchall=ord(System.byte_switchall),
+                  max_usd=System.max_usd_per_line)
+    src = open(os.path.join(REPO, 'simulators/active_surface/command_library.py')).read()
+    tree = ast.parse(src)
+    encs = []
+    for node in tree.body:
+        if isinstance(node, ast.FunctionDef) and not node.name.startswith('_'):
+            rets = [n for n in ast.walk(node) if isinstance(n, ast.Return)]
+            if len(rets) != 1:
+                raise GenError('encoder %s: %d return statements' % (node.name, len(rets)))
+            call = rets[0].value
+            if not (isinstance(call, ast.Call) and isinstance(call.func, ast.Name) and call.func.id == '_compose'
+                    and len(call.args) in (3, 4) and isinstance(call.args[2], ast.Constant)
+                    and isinstance(call.args[2].value, str) and len(call.args[2].value) == 1
+                    and isinstance(call.args[0], ast.Name) and call.args[0].id == 'address_on_response'
+                    and isinstance(call.args[1], ast.Name) and call.args[1].id == 'usd_index'):
+                raise GenError('encoder %s: unrecognised return shape' % node.name)
+            encs.append((node.name, ord(call.args[2].value)))
+    starts = {}
+    for node in tree.body:
+        if isinstance(node, ast.Assign) and len(node.targets) == 1 and isinstance(node.targets[0], ast.Name) \
+                and node.targets[0].id in ('byte_start_fa', 'byte_start_fc'):
+            starts[node.targets[0].id] = ord(node.value.value)
+    if sorted(starts) != ['byte_start_fa', 'byte_start_fc']:
+        raise GenError('start bytes of command_library not found')
+
+    def name(s):
+        return zlist([ord(c) for c in s])
+    lines = ['(* GENERATED by props/asl_lib.py from simulators/active_surface/{__init__,command_library}.py;',
+             '   never edit, never commit *)',
+             'From DS Require Import Base.Prelude.',
+             'Definition gen_functions : list (Z * list Z) := [',
+             ';\n'.join('  (%s, %s)' % (zlit(c), name(h)) for c, h in funcs), '].',
+             'Definition gen_ack : Z := %s.' % zlit(consts['ack']),
+             'Definition gen_nak : Z := %s.' % zlit(consts['nak']),
+             'Definition gen_switchall : Z := %s.' % zlit(consts['switchall']),
+             'Definition gen_max_usd_per_line : Z := %s.' % zlit(consts['max_usd']),
+             'Definition gen_start_fa : Z := %s.' % zlit(starts['byte_start_fa']),
+             'Definition gen_start_fc : Z := %s.' % zlit(starts['byte_start_fc']),
+             'Definition gen_encoders : list (list Z * Z) := [',
+             ';\n'.join('  (%s, %s)' % (name(n), zlit(c)) for n, c in encs), '].']
+    write_if_changed(os.path.join(COQ, 'Gen', 'AslTables.v'), '\n'.join(lines) + '\n')
